@@ -6,3 +6,8 @@ mod token_kind;
 pub(crate) use description::*;
 pub use parse_iso_literal::*;
 pub use token_kind::*;
+
+#[cfg(feature = "isographlabs_isograph_verif")]
+mod verif;
+#[cfg(feature = "isographlabs_isograph_verif")]
+pub use verif::*;
